@@ -58,6 +58,7 @@ REG_TYPES = z3.Const('reg_types', so.TySeq)
 _OR = z3.Or(z3.Bool('a'), z3.Bool('b')).decl()
 
 ty_args = z3.Function('sp_ty_args', Ty, so.TySeq)
+resolve_tag = z3.Function('sp_resolve', S, S)     # BaseResolver.resolve
 
 # wf_ty(t): t is a type of the supported type language over a CLOSED class
 # model (every class used in an annotation is registered, dict keys are
@@ -107,10 +108,38 @@ def wf_axioms(formulas):
         ax.append(z3.Implies(wf_ty(x), z3.Or(
             scalar, x == Ty.ty_Path, x == Ty.ty_Any, Ty.is_ty_Union(x),
             Ty.is_ty_List(x), Ty.is_ty_Dict(x), reg(x))))
+        # the leaves of the type language are well formed
+        ax.append(z3.Implies(z3.Or(scalar, x == Ty.ty_Path, x == Ty.ty_Any),
+                             wf_ty(x)))
+        # registered things are classes -- possibly a built-in scalar class
+        # (load_function(int) registers int itself), never a generic alias
         ax.append(z3.Implies(reg(x), z3.And(
             z3.Not(Ty.is_ty_Union(x)), z3.Not(Ty.is_ty_List(x)),
             z3.Not(Ty.is_ty_Dict(x)), x != Ty.ty_Any, x != Ty.ty_Path,
-            z3.Not(scalar), ct_isclass(x), wf_ty(x))))
+            x != Ty.ty_None, x != Ty.ty_BoolFix, ct_isclass(x), wf_ty(x))))
+        # E-BUILTIN-CLASSES: str int float bool date NoneType have no hooks,
+        # no typed constructor parameters, are concrete; only str is
+        # string-like; none is an enum
+        ax.append(z3.Implies(scalar, z3.And(
+            ct_nparams(x) == 0, z3.Not(ct_is_enum(x)),
+            z3.Not(ct_own_recognize(x)), z3.Not(ct_own_savorize(x)),
+            z3.Not(ct_own_sweeten(x)), z3.Not(ct_is_abstract(x)),
+            ct_is_strlike(x) == (x == Ty.ty_Str),
+            z3.Length(ct_bases(x)) <= 1)))
+    # E-BUILTIN-CLASSES: a built-in scalar class has no registered user
+    # class among its bases
+    for x in tl:
+        for y in tl:
+            if x.eq(y):
+                continue
+            sx = z3.Or(*[x == getattr(Ty, nm) for nm in (
+                'ty_Str', 'ty_Int', 'ty_Float', 'ty_Bool', 'ty_Date',
+                'ty_NoneType')])
+            sy = z3.Or(*[y == getattr(Ty, nm) for nm in (
+                'ty_Str', 'ty_Int', 'ty_Float', 'ty_Bool', 'ty_Date',
+                'ty_NoneType')])
+            ax.append(z3.Implies(
+                z3.And(sx, z3.Contains(ct_bases(x), z3.Unit(y)), reg(y)), sy))
     for n in nths.values():
         sq, j = n.arg(0), n.arg(1)
         inb = z3.And(j >= 0, j < z3.Length(sq))
@@ -225,7 +254,7 @@ SPECB = ('tyset_empty', 'tyset_of', 'in_set', 'card0', 'card1', 'cardmany',
          'cls_preq', 'cls_bases', 'reg_has', 'reg_has_tag', 'reg_lookup',
          'reg_types', 'reg_tags', 'recog_ok', 'sav_ok', 'sav_result',
          'E', 'err_msg', 'err_causes', 'image_list', 'reg_len', 'set_remove',
-         'image_dict_key', 'image_dict_val', 'dashed', 'is_base_of', 'wf_ty', 'forall_in')
+         'image_dict_key', 'image_dict_val', 'dashed', 'is_base_of', 'wf_ty', 'forall_in', 'sav_trace', 'empty_tys', 'prefix_of')
 
 
 ct_subclass = z3.Function('ct_subclass', Ty, Ty, B)       # issubclass(a, b)
@@ -245,6 +274,11 @@ class TypesPlugin:
             eng.assume_note('additional classes are {Path: "!Path"} '
                             '(established by load_function; C11/C04 frame)')
             return VDictC([(VTy(Ty.ty_Path), VStr('!Path'))])
+        if key == 'resolver':
+            oid = st.new_obj({'__resolver__': VBool(True)})
+            return VObj(oid, None)
+        if key == 'opaque':
+            return VOpaque(prefix)
         if key == 'RecResult':
             return VTuple((VTySet(fresh(prefix + '_set', so.TySet)),
                            VErr(fresh(prefix + '_err', so.RErr))))
@@ -320,6 +354,8 @@ class TypesPlugin:
         return None
 
     def call_method(self, eng, recv, name, args, kwargs, st, node):
+        if isinstance(recv, VObj) and name == 'resolve':
+            return self.call_method_resolve(eng, args, st)
         if isinstance(recv, VRegDict):
             if name == 'values':
                 return [(st, VSeq(recv.types, 'ty'))]
@@ -489,6 +525,8 @@ class TypesPlugin:
         return None
 
     def iter_desc(self, eng, itv, st, node):
+        if isinstance(itv, VTyAttr) and itv.what == '__bases__':
+            return eng.iter_desc(VSeq(ct_bases(itv.t), 'ty'), st, node)
         if isinstance(itv, VParamSeq):
             t = itv.t
             return [(st, ('sym', lambda s: ct_nparams(t),
@@ -540,6 +578,24 @@ class TypesPlugin:
             st.assume(z3.Select(R, mk(w)) == z3.Select(S, w))
         return [(st, VTySet(R))]
 
+    def obj_attr(self, eng, v, name, st):
+        if name == 'resolve':
+            return [(st, VExtMethod(v, 'resolve'))]
+        return None
+
+    def call_method_resolve(self, eng, args, st):
+        eng.assume_note('E-RESOLVE-CORE: BaseResolver.resolve returns a '
+                        'core-schema tag (all implicit resolver entries and '
+                        'the defaults are tag:yaml.org,2002:*)')
+        val = args[1]
+        if isinstance(val, VNodeValue):
+            val = eng.models.str_of(eng, val, st)
+        if not isinstance(val, VStr):
+            raise Unsupported('resolve() of a non-str value')
+        t = resolve_tag(val.t)
+        st.assume(z3.PrefixOf(z3.StringVal('tag:yaml.org,2002:'), t))
+        return [(st, VStr(t))]
+
     def map_of(self, eng, f, xs, st, node):
         if isinstance(xs, (VTySet, VEmptySet)):
             return [(st, VOpaque('map over a set of types'))]
@@ -575,8 +631,8 @@ class TypesPlugin:
         if hv.name in ('_yatiml_savorize', '_yatiml_sweeten'):
             eng.assume_note('H-SAV: %s may replace the node by any node, or '
                             'raise SeasoningError; deterministic' % hv.name)
-            st.trace.append(('SAV' if hv.name == '_yatiml_savorize'
-                             else 'SWEET', hv.t))
+            if st.sav is not None:
+                st.sav = z3.Concat(st.sav, z3.Unit(hv.t))
             ok = hook_sav_ok(hv.t, n)
             out = []
             for s2, good in eng.branch(st, ok):
@@ -597,6 +653,15 @@ class TypesPlugin:
     def call_specb(self, eng, name, args, st, node):
         T = lambda v: eng.models.to_term(eng, v, Ty, st)          # noqa
         SET = lambda v: self.to_set(eng, v)                        # noqa
+        if name == 'sav_trace':
+            if st.sav is None:
+                raise Unsupported('sav_trace() outside a function body', node)
+            return VSeq(st.sav, 'ty')
+        if name == 'empty_tys':
+            return VSeq(z3.Empty(so.TySeq), 'ty')
+        if name == 'prefix_of':
+            a, b = eng.to_seq(args[0], st), eng.to_seq(args[1], st)
+            return VBool(z3.PrefixOf(a.t, b.t))
         if name == 'forall_in':
             # forall_in(S, lambda r: P(r)):  every member of S satisfies P.
             # An uninterpreted predicate of S per (closed) body; instantiated
@@ -861,6 +926,8 @@ def set_axioms(formulas):
             continue
         seen.add(i)
         if z3.is_quantifier(t):
+            if t.is_lambda() and t.sort() == so.TySet:
+                sets[i] = t        # image sets {C[x] for x in S}
             continue
         if z3.is_app(t):
             srt = t.sort()
